@@ -82,7 +82,8 @@ def crate_dir(name, fresh=False):
     shutil.rmtree(c, ignore_errors=True)
     shutil.copytree(d, c, ignore=shutil.ignore_patterns("target"))
     t = os.path.join(c, "Cargo.toml")
-    open(t, "w").write(open(t).read().replace('path = "/repo', 'path = "' + REPO))
+    text = open(t).read().replace('path = "/repo', 'path = "' + REPO)
+    open(t, "w").write(text)
     return c
 
 
@@ -98,7 +99,9 @@ def build_kernels(dev=False):
 def build_harness():
     d = crate_dir("harness", fresh=True)
     _ensure_lock(d)
-    return _cargo_build(d, os.path.join(BUILD, "harness"), ["--release"], GUARD_CFG, "harness-build.log")
+    # overflow checks on: an integer overflow inside the compiler (which a release build would wrap silently and a dev build
+    # turns into a panic) is made observable to the monitors that drive the library through the harness
+    return _cargo_build(d, os.path.join(BUILD, "harness"), ["--release"], GUARD_CFG + " -C overflow-checks=on", "harness-build.log")
 
 
 def sha(s):
